@@ -97,7 +97,9 @@ def alphabet(tier):
         for w in (0, 1, 2):
             ops.append(("seek", n, w))
     ops.append(("seek", 1, 3))
-    for k in ("default", -1, 0, 1, 2, 5):
+    # any negative count means "to the end of the view" (the method's own
+    # documentation), not only -1
+    for k in ("default", -1, -2, -1000, 0, 1, 2, 5):
         ops.append(("read", k))
     for n in (0, 1, 2, 5):
         ops.append(("write", n))
@@ -294,7 +296,8 @@ def _apply(world, v, op, problems, known):
     elif name == "read":
         k = op[1]
         avail = max(0, L - mod.off)
-        n = avail if k in ("default", -1) else min(k, avail)
+        to_end = (k == "default" or k < 0)
+        n = avail if to_end else min(k, avail)
         want = bytes(world.mmem[GUARD + mod.start - BASE + mod.off:
                                 GUARD + mod.start - BASE + mod.off + n])
         if exc is not None:
@@ -306,7 +309,7 @@ def _apply(world, v, op, problems, known):
             if real._offset != mod.off + n:
                 bad("read_position", "position %r after reading %d bytes "
                     "from %r" % (real._offset, n, mod.off))
-            wanted_warn = 1 if (k not in ("default", -1) and k > avail) else 0
+            wanted_warn = 1 if (not to_end and k > avail) else 0
             # a zero-length request beyond the end moves nothing; whether
             # it warns is not constrained by the property
             free_choice = (mod.off > L and k == 0)
@@ -516,9 +519,73 @@ def part_filelike(acc):
     acc.sample(dict(filelike=True, sizes=[0, 1, 2, 3, 4, 5, 10, 13, 16]))
 
 
+BIG = 600
+
+
+def big_alphabet():
+    """Transfers of hundreds of bytes on a view whose base address is not
+    word aligned: sizes around 255/256/257 and around the whole view, from
+    positions of every alignment."""
+    ops = [("seek", n, 0) for n in (0, 1, 2, 3, 4, 255, 343, 344, 599)]
+    ops += [("read", k) for k in ("default", -3, 254, 255, 256, 257, 300,
+                                  512, 599, 600, 601, 1024)]
+    ops += [("write", n) for n in (255, 256, 257, 300, 600, 601)]
+    ops += [("slice", a, b) for a, b in ((5, 306), (1, None), (None, -1),
+                                         (3, 259), (4, 260), (344, None))]
+    return ops
+
+
+def run_big(params, tier, acc):
+    """Depth-2 (thorough 3) search over the big alphabet."""
+    ops = big_alphabet()
+    depth = 2 if tier == "quick" else 3
+    lo, hi = params["first"]
+    seen = set()
+    frontier = [[]]
+    for level in range(1, depth + 1):
+        nxt = []
+        for h in frontier:
+            nviews = len(build(BIG, h).real)
+            for v in range(nviews):
+                for op in (ops[lo:hi] if level == 1 else ops):
+                    w = build(BIG, h)
+                    problems = []
+                    before = w.canon()
+                    apply(w, v, op, problems, None)
+                    acc.transitions += 1
+                    acc.evaluations += 1
+                    after = w.canon()
+                    if after != before:
+                        acc.nontrivial += 1
+                    for kind, extra, msg in problems:
+                        sig = dict(kind=kind)
+                        sig.update(extra)
+                        acc.violation(
+                            sig, dict(length=BIG,
+                                      hist=[[a, list(b)] for a, b in
+                                            h + [(v, op)]]),
+                            msg + "\n  history: " +
+                            "; ".join("v%d.%s" % (a, fmt(b))
+                                      for a, b in h + [(v, op)]),
+                            size=len(h) + 1)
+                    acc.outcome(op[0] + (":err" if problems else ""))
+                    if after not in seen:
+                        seen.add(after)
+                        acc.states += 1
+                        if level < depth:
+                            nxt.append(h + [(v, op)])
+        frontier = nxt
+    acc.traces += acc.transitions
+    acc.sample(dict(length=BIG, first_ops=[fmt(o) for o in ops[lo:hi]],
+                    states=len(seen), depth=depth))
+
+
 def shards(tier):
     ops = alphabet(tier)
     out = [dict(filelike=True)]
+    nb = len(big_alphabet())
+    for i in range(0, nb, 3):
+        out.append(dict(big=True, first=[i, min(i + 3, nb)]))
     for length in scope(tier)["lengths"]:
         for i in range(0, len(ops), 6):
             out.append(dict(length=length, first=[i, min(i + 6, len(ops))]))
@@ -528,6 +595,9 @@ def shards(tier):
 def run_shard(params, tier, acc):
     if params.get("filelike"):
         part_filelike(acc)
+        return
+    if params.get("big"):
+        run_big(params, tier, acc)
         return
     ops = alphabet(tier)
     depth = scope(tier)["depth"]
